@@ -32,6 +32,8 @@ type VCCase struct {
 	Cons  *ECons  `json:"cons"`
 	Typed string  `json:"typed"`
 	Place VCPlace `json:"place"`
+	Form  string  `json:"form"` // expression form the cursor is inside ("plain" = the value itself)
+	Exp   string  `json:"exp"`  // type expected at the cursor (ValComp!ExpType)
 }
 
 func vcExpected(c *ECons) cty.Type {
@@ -149,8 +151,28 @@ func runVCCase(wt *watch, c *VCCase, idx int) Event {
 	if c.Cons.K == "listref" || c.Cons.K == "setany" {
 		open = "["
 	}
-	sb.WriteString(open + c.Typed)
+	pre, post := "", ""
+	switch c.Form {
+	case "tmpl":
+		pre, post = "\"a-${", "}\""
+	case "binr":
+		pre = "1 + "
+	case "condt":
+		pre, post = "true ? ", " : null"
+	case "condf":
+		pre = "true ? null : "
+	case "arg":
+		pre, post = "upper(", ")"
+	case "paren":
+		pre, post = "(", ")"
+	case "forcoll":
+		pre, post = "[for x in ", " : x]"
+	case "forbody":
+		pre, post = "[for x in loc.l : ", "]"
+	}
+	sb.WriteString(open + pre + c.Typed)
 	cursor := sb.Len()
+	sb.WriteString(post)
 	if open != "" {
 		sb.WriteString("]")
 	}
@@ -171,6 +193,9 @@ func runVCCase(wt *watch, c *VCCase, idx int) Event {
 	types := map[string]cty.Type{}
 	declTypes(env.R.Ctxs["p1"].ReferenceTargets, nil, types, true)
 	exp := vcExpected(c.Cons)
+	if c.Form != "" && c.Form != "plain" {
+		exp = anyType(c.Exp)
+	}
 	conv := map[string]bool{}
 	for a, t := range types {
 		ok := false
@@ -226,8 +251,15 @@ func runVCCase(wt *watch, c *VCCase, idx int) Event {
 			cands = append(cands, []interface{}{cd.Label, kind, rt})
 		}
 	}
-	return Event{"ev": "ValComp", "case": idx, "layout": 0, "cons": c.Cons, "typed": c.Typed, "place": c.Place, "edited": edited, "status": o.Status,
+	return Event{"ev": "ValComp", "case": idx, "layout": 0, "cons": c.Cons, "typed": c.Typed, "place": c.Place, "form": formOf(c), "exp": c.Exp, "edited": edited, "status": o.Status,
 		"cands": cands, "conv": conv, "fnconv": fnconv}
+}
+
+func formOf(c *VCCase) string {
+	if c.Form == "" {
+		return "plain"
+	}
+	return c.Form
 }
 
 func cmdValComp(fs *flag.FlagSet) {
